@@ -21,6 +21,8 @@
    remove_records acting on touched kinds only.  Properties:
         Frame      records of untouched kinds: byte-identical (same uid), same relative order
         Placement  a record inserted by insert_record follows the documented rule
+        Comments   (StreamOps.CommentsHold, on real traces) no comment of the old text survives only as part of a
+                   longer or shorter comment: a rewritten record may lose its comments, it must not corrupt them
    (design => property, checked on every reachable transition).  Every layout
    x edit is emitted as a case; the real old/new streams come back as traces
    and are validated by StreamTrace.tla against Frame / Placement.            *)
@@ -35,9 +37,10 @@ CONSTANTS Mode,                       \* "text" | "rec"
           MaxOps                      \* rec level: stream operations per edit in the abstract machine
 
 VARIABLES toks, chunks, pend, bol,    \* text level: tokens so far, automaton state
-          stream, nuid, phase, edit, before, nops   \* record level
+          stream, nuid, phase, edit, before, nops,  \* record level
+          decor                                     \* record level: shape classes of individual records (see Decorations)
 
-vars == <<toks, chunks, pend, bol, stream, nuid, phase, edit, before, nops>>
+vars == <<toks, chunks, pend, bol, stream, nuid, phase, edit, before, nops, decor>>
 
 (* ======================================================================== text level *)
 Alphabet == Dollars \cup Blanks \cup Newlines \cup Others
@@ -68,7 +71,7 @@ TextInit == /\ toks = Prefix /\ Mode = "text"
                                         ELSE Run(k + 1, FeedChunks(cs, pd, b, Prefix[k]), FeedPend(pd, b, Prefix[k]), FeedBol(b, Prefix[k]))
                    r == Run(1, << <<>> >>, <<>>, TRUE)
                IN chunks = r[1] /\ pend = r[2] /\ bol = r[3]
-            /\ stream = <<>> /\ nuid = 0 /\ phase = "text" /\ edit = "none" /\ before = <<>> /\ nops = 0
+            /\ stream = <<>> /\ nuid = 0 /\ phase = "text" /\ edit = "none" /\ before = <<>> /\ nops = 0 /\ decor = {}
 
 AppendTok(t) ==
     /\ Mode = "text" /\ Len(toks) < Len(Prefix) + MaxLen
@@ -77,7 +80,7 @@ AppendTok(t) ==
     /\ chunks' = FeedChunks(chunks, pend, bol, t)
     /\ pend' = FeedPend(pend, bol, t)
     /\ bol' = FeedBol(bol, t)
-    /\ UNCHANGED <<stream, nuid, phase, edit, before, nops>>
+    /\ UNCHANGED <<stream, nuid, phase, edit, before, nops, decor>>
 DoDollar == \E t \in Dollars : AppendTok(t)
 DoBlank == \E t \in Blanks : AppendTok(t)
 DoNewline == \E t \in Newlines : AppendTok(t)
@@ -107,7 +110,7 @@ Variations == {"dupTHETA", "dupOMEGA", "dupSIGMA", "dupEST", "splitTHETA", "spli
                "paramsFirst", "pretext", "pred"}
 RecInit == /\ Mode = "rec" /\ phase = "layout"
            /\ stream = [i \in 1..Len(BaseLayout) |-> <<BaseLayout[i], i>>] /\ nuid = Len(BaseLayout)
-           /\ edit = "none" /\ before = <<>> /\ nops = 0
+           /\ edit = "none" /\ before = <<>> /\ nops = 0 /\ decor = {}
            /\ toks = <<>> /\ chunks = <<>> /\ pend = <<>> /\ bol = TRUE
 InsertAt(s, p, r) == [i \in 1..(Len(s) + 1) |-> IF i < p THEN s[i] ELSE IF i = p THEN r ELSE s[i - 1]]
 LastOf(s, k) == Max({i \in 1..Len(s) : KindOf(s[i]) = k})
@@ -138,8 +141,26 @@ Vary(v) ==
              /\ stream' = LET s1 == SelectSeq(stream, LAMBDA r : KindOf(r) \notin {"SUBROUTINES", "ERROR"})
                           IN [i \in 1..Len(s1) |-> IF KindOf(s1[i]) = "PK" THEN <<"PRED", s1[i][2]>> ELSE s1[i]]
     /\ nuid' = nuid + 1
-    /\ UNCHANGED <<phase, edit, before, toks, chunks, pend, bol, nops>>
+    /\ UNCHANGED <<phase, edit, before, toks, chunks, pend, bol, nops, decor>>
 DoVary == \E v \in Variations : Vary(v)
+
+(* shape classes of single records (they do not change the record sequence, the renderer obeys them):
+     tableML   $TABLE over two lines, a comment at the end of the first, the continuation line starts with the
+               options NOPRINT ONEHEADER FILE= that estimation / table edits remove and re-append
+     thetaRep  one $THETA record holding a (v)xn repeat FOLLOWED by another theta (three parameters)
+     thetaInf  one $THETA record with several parameters and explicit infinite bounds
+     omega4 / sigma4   the two records of the kind hold two values each (a later record next to an earlier one)  *)
+Decorations == {"tableML", "thetaRep", "thetaInf", "omega4", "sigma4"}
+Decorate(d) ==
+    /\ Mode = "rec" /\ phase = "layout" /\ nuid < Len(BaseLayout) + MaxExtra /\ d \notin decor
+    /\ d = "tableML" => HasKind(stream, "TABLE")
+    /\ d = "thetaRep" => CountKind(stream, "THETA") = 1 /\ "thetaInf" \notin decor
+    /\ d = "thetaInf" => CountKind(stream, "THETA") = 1 /\ "thetaRep" \notin decor
+    /\ d = "omega4" => CountKind(stream, "OMEGA") = 2
+    /\ d = "sigma4" => CountKind(stream, "SIGMA") = 2
+    /\ decor' = decor \cup {d} /\ nuid' = nuid + 1
+    /\ UNCHANGED <<stream, phase, edit, before, toks, chunks, pend, bol, nops>>
+DoDecorate == \E d \in Decorations : Decorate(d)
 
 (* ---- the transcribed stream operations (NMTranControlStream) *)
 InsertRecord(s, r) ==       \* insert_record(record)
@@ -169,7 +190,7 @@ StartEdit(e) == /\ Mode = "rec" /\ phase = "layout"
                 /\ (e = "Rename") => HasKind(stream, "TABLE")
                 /\ (e = "RemoveEst") => CountKind(stream, "ESTIMATION") >= 2
                 /\ phase' = "edit" /\ edit' = e /\ before' = stream
-                /\ UNCHANGED <<stream, nuid, toks, chunks, pend, bol, nops>>
+                /\ UNCHANGED <<stream, nuid, toks, chunks, pend, bol, nops, decor>>
 DoStartEdit == \E e \in Edits : StartEdit(e)
 
 Op(kind) ==   \* one stream operation on a touched kind (bounded: at most 3 operations per edit)
@@ -180,7 +201,7 @@ Op(kind) ==   \* one stream operation on a touched kind (bounded: at most 3 oper
        \/ \E i \in 1..Len(stream) : KindOf(stream[i]) = kind /\ stream' = RemoveRecord(stream, i)
        \/ \E n \in 0..2 : stream' = ReplaceAll(stream, kind, [j \in 1..n |-> <<kind, nuid + j>>])
     /\ nuid' = nuid + 2 /\ nops' = nops + 1
-    /\ UNCHANGED <<phase, edit, before, toks, chunks, pend, bol>>
+    /\ UNCHANGED <<phase, edit, before, toks, chunks, pend, bol, decor>>
 DoOp == \E k \in Kinds : Op(k)
 
 (* properties of the record level *)
@@ -192,9 +213,9 @@ UidsUnique == Mode = "rec" => \A i, j \in 1..Len(stream) : i # j => stream[i][2]
 
 EmitLayout == (Mode = "rec" /\ phase = "edit" /\ stream = before) =>
                  PrintT(<<"LAYOUT", ToJson([kinds |-> [i \in 1..Len(stream) |-> KindOf(stream[i])], edit |-> edit,
-                                            touches |-> Touches(edit)])>>)
+                                            touches |-> Touches(edit), decor |-> decor])>>)
 
 Init == IF Mode = "text" THEN TextInit ELSE RecInit
-Next == DoDollar \/ DoBlank \/ DoNewline \/ DoOther \/ DoVary \/ DoStartEdit \/ DoOp
+Next == DoDollar \/ DoBlank \/ DoNewline \/ DoOther \/ DoVary \/ DoDecorate \/ DoStartEdit \/ DoOp
 Spec == Init /\ [][Next]_vars
 =============================================================================
